@@ -78,6 +78,7 @@ func (r *run) fail(family, oracle, fp, format string, a ...interface{}) {
 
 func (r *run) probe(n string) { r.res.Probes[n]++ }
 func (r *run) fault(n string) { r.res.Faults[n]++ }
+
 var liveLog = os.Getenv("VERIF_LIVELOG") != ""
 
 func (r *run) logf(f string, a ...interface{}) {
